@@ -13,6 +13,10 @@ HARNESSES = [
     {"name": "response", "fn": N + "VerifC10Response", "bounds": "response with one 8-byte cookie; layout-preserving adversary, arbitrary key and request id"},
     {"name": "responsetrailing", "fn": N + "VerifC10ResponseTrailing", "bounds": "genuine response followed by 36 arbitrary bytes; arbitrary request id"},
     {"name": "requesttrailing", "fn": N + "VerifC10RequestTrailing", "bounds": "genuine request followed by 36 arbitrary bytes"},
+    {"name": "tamperauthhdr", "fn": N + "VerifC10TamperAuthHeader", "bounds": "genuine request (32-byte id, 8-byte cookie); type bytes and low length bytes of the authenticator field header replaced by every other value <= 48"},
+    {"name": "tamperresphdr", "fn": N + "VerifC10TamperResponseAuthHeader", "bounds": "genuine response; type bytes and low length bytes of the authenticator field header replaced by every other value <= 48", "cfg": {"copy_bound": 64, "aead_bound": 160}},
+    {"name": "otherid32", "fn": N + "VerifC10ResponseOtherID32", "bounds": "authentic response carrying an arbitrary 32-byte identifier vs. an arbitrary outstanding identifier"},
+    {"name": "otherid36", "fn": N + "VerifC10ResponseOtherID36", "bounds": "authentic response carrying an arbitrary 36-byte identifier (e.g. the outstanding one plus four bytes)"},
     {"name": "cookie", "fn": K + "VerifC10Cookie", "bounds": "cookie with 32-byte keys; arbitrary second key"},
     {"name": "cookietamper", "fn": K + "VerifC10CookieTamper", "bounds": "cookie with the sealed layout and arbitrary nonce / ciphertext bytes", "thorough_only": True},
 ]
